@@ -8,6 +8,8 @@
 (* Between an operation's call and its ret a silent step Lin(thr) applies  *)
 (* it to the reference store; the reference reply at that point must equal *)
 (* the reply the real operation returned (attached to the call line).  A   *)
+(* scrape of several torrents is a sequence of per-torrent units, in       *)
+(* request order, each linearized on its own (LinScrape).  A               *)
 (* cleaning pass is a sequence of per-torrent units: between its call and  *)
 (* ret, each torrent may be cleaned at most once (LinClean).  TLC searches *)
 (* for linearization points; the trace is accepted iff some choice         *)
@@ -21,7 +23,7 @@ Rec == ndJsonDeserialize(IOEnv.TRACE)
 VARIABLES l, store, pending
 vars == <<l, store, pending>>
 
-(* pending: thr -> [op, reply, lin (BOOLEAN), cleaned (set of hashes)] *)
+(* pending: thr -> [op, reply, lin (BOOLEAN), cleaned (set of hashes), j (scrape units done)] *)
 
 Init == l = 1 /\ store = <<>> /\ pending = <<>> /\ TLCSet(2, 1)
 
@@ -39,7 +41,7 @@ Call ==
     /\ IsEvent("call")
     /\ E.thr \notin DOMAIN pending
     /\ "reply" \in DOMAIN E            \* operations that never returned cannot be linearized
-    /\ pending' = FnPut(pending, E.thr, [op |-> E.op, reply |-> E.reply, lin |-> FALSE, cleaned |-> {}])
+    /\ pending' = FnPut(pending, E.thr, [op |-> E.op, reply |-> E.reply, lin |-> FALSE, cleaned |-> {}, j |-> 0])
     /\ UNCHANGED store
 
 Key(op) == op.key
@@ -48,18 +50,26 @@ T(op) == <<4, op.h>>
 Lin(thr) ==
     /\ thr \in DOMAIN pending /\ ~pending[thr].lin
     /\ LET p == pending[thr]  op == p.op IN
-       /\ op.kind \in {"announce", "scrape"}
-       /\ IF op.kind = "announce"
-          THEN LET cnt == AnnounceCountsExcl(store, T(op), Key(op))
-                   status == IF op.stop THEN "stopped" ELSE "leeching"
-               IN /\ p.reply = cnt.seeders + cnt.leechers
-                  /\ store' = AnnounceStore(store, T(op), Key(op), status,
-                                            [seeder |-> FALSE, deadline |-> op.d, pid |-> 1])
-          ELSE LET cnt == ScrapeCounts(store, T(op))
-               IN /\ p.reply = cnt.seeders + cnt.leechers
-                  /\ store' = store
+       /\ op.kind = "announce"
+       /\ LET cnt == AnnounceCountsExcl(store, T(op), Key(op))
+              status == IF op.stop THEN "stopped" ELSE "leeching"
+          IN /\ p.reply = cnt.seeders + cnt.leechers
+             /\ store' = AnnounceStore(store, T(op), Key(op), status,
+                                       [seeder |-> FALSE, deadline |-> op.d, pid |-> 1])
     /\ pending' = [pending EXCEPT ![thr].lin = TRUE]
     /\ UNCHANGED l
+
+(* the next unit of a scrape: the counts of its (j+1)-th torrent, as of now *)
+LinScrape(thr) ==
+    /\ thr \in DOMAIN pending /\ ~pending[thr].lin
+    /\ LET p == pending[thr]  op == p.op IN
+       /\ op.kind = "scrape"
+       /\ Len(p.reply) = Len(op.hs)
+       /\ p.j < Len(op.hs)
+       /\ LET cnt == ScrapeCounts(store, <<4, op.hs[p.j + 1]>>)
+          IN p.reply[p.j + 1] = cnt.seeders + cnt.leechers
+       /\ pending' = [pending EXCEPT ![thr].j = p.j + 1, ![thr].lin = (p.j + 1 = Len(op.hs))]
+    /\ UNCHANGED <<l, store>>
 
 LinClean(thr, t) ==
     /\ thr \in DOMAIN pending /\ pending[thr].op.kind = "clean"
@@ -87,7 +97,7 @@ Final ==
 
 Next ==
     \/ Reset \/ Call \/ Ret \/ Final
-    \/ \E thr \in DOMAIN pending : Lin(thr)
+    \/ \E thr \in DOMAIN pending : Lin(thr) \/ LinScrape(thr)
     \/ \E thr \in DOMAIN pending : \E t \in DOMAIN store : LinClean(thr, t)
 
 Spec == Init /\ [][Next]_vars
